@@ -295,12 +295,14 @@ type concRun struct {
 }
 
 type concTrace struct {
-	Cfg       *concCfg   `json:"config"`
-	Programs  [][]string `json:"programs"`
-	Outcomes  [][]string `json:"outcomes"`
-	Decisions []int      `json:"decisions"`
-	Verdict   string     `json:"verdict"`
-	Detail    string     `json:"detail,omitempty"`
+	Cfg       *concCfg    `json:"config"`
+	Programs  [][]string  `json:"programs"`
+	Outcomes  [][]string  `json:"outcomes"`
+	Decisions []int       `json:"decisions"`
+	Verdict   string      `json:"verdict"`
+	Detail    string      `json:"detail,omitempty"`
+	Final     []string    `json:"observed_final_state,omitempty"`
+	Orders    []orderInfo `json:"sequential_orders,omitempty"`
 }
 
 type concIn struct {
